@@ -4,8 +4,10 @@
 use crate::run::{execute, Budget, ExecOpts, Violation};
 use crate::spec::*;
 
-/// Budgets of a candidate come from its own fault-free reference runs, exactly as the explorers
-/// compute them, so a shrunk run is judged by the same rule as the original.
+/// Budgets of a candidate come from its own fault-free reference run, by the same rule as in the
+/// explorers (reference calls + 1000, reference polls + 64); the reference run here may use up
+/// to 60 000 calls, whereas the quick explorers stop theirs at 5 000 (a candidate's budgets
+/// travel in the replay file, so the replay is judged exactly as the minimiser judged it).
 pub fn budgets_for(spec: &RunSpec) -> Vec<Budget> {
     spec.instances
         .iter()
